@@ -403,6 +403,7 @@ def bounds(tier):
         "multi_members": [1, 2, 3], "holes_per_polygon": [0, 1] if tier == "quick" else [0, 1, 2],
         "mpoly_pool_sizes": {"k2": len(mpoly_pool2(T, Fq, tier)), "k3": len(mpoly_pool3(tier))},
         "geometries_per_family": family_counts(tier),
+        "orders": "every part of every family is walked twice in one process: in enumeration order and reversed",
         "positions": POSITIONS + SHAPELY_POSITIONS, "invalid_positions": INVALID,
     }
 
@@ -416,15 +417,23 @@ def blocks(tier):
         for i in range(parts):
             n = len(range(i, counts[fam], parts))
             out.append({"fam": fam, "tier": tier, "part": i, "of": parts, "n": n})
-    return out
+    # every part once more, from its last geometry back to its first: the functions under test are specified as
+    # functions of the geometry alone, so a value remembered from an earlier call (a conversion cache, say) must
+    # not show in either order of any two geometries of a part
+    return out + [dict(b, order="reversed") for b in out]
 
 
 def run_block(block, rec):
     fam = block["fam"]
     n = 0
-    for gtype, coords in itertools.islice(family(fam, block["tier"]), block["part"], None, block["of"]):
+    members = itertools.islice(family(fam, block["tier"]), block["part"], None, block["of"])
+    if block.get("order") == "reversed":
+        members = reversed(list(members))
+    for gtype, coords in members:
         rec.add(run_case({"fam": fam, "type": gtype, "coordinates": coords}))
         n += 1
+    if block.get("order") == "reversed":
+        rec.count("geometries_walked_in_reverse", n)
     if n != block["n"]:
         raise AssertionError("enumeration of %r gave %d cases, %d announced" % (block, n, block["n"]))
 
